@@ -947,7 +947,7 @@ impl Sim {
                         }
                     }
                 };
-                self.emit(json!({"ev": "write", "e": e, "h": h, "len": total, "parts": lens.len(), "vectored": vectored, "res": res, "n": n}));
+                self.emit(json!({"ev": "write", "e": e, "h": h, "len": total, "lens": lens, "parts": lens.len(), "vectored": vectored, "res": res, "n": n}));
                 true
             }
             "read" => {
